@@ -428,11 +428,12 @@ class Arrow(Type):
         return [self.type_in]
 
     def without_unit_arguments(self) -> "Type":
+        type_out = self.type_out.without_unit_arguments()
         if self.type_in == UNIT:
-            return self.type_out
+            return type_out
         elif isinstance(self.type_in, Arrow) and self.type_in.type_out == UNIT:
-            return Arrow(self.type_in.type_in, self.type_out)
-        return self
+            return Arrow(self.type_in.type_in, type_out)
+        return Arrow(self.type_in, type_out)
 
     def is_polymorphic(self) -> bool:
         return self.type_in.is_polymorphic() or self.type_out.is_polymorphic()
